@@ -61,7 +61,9 @@ CHECKS.update({
 
 CHECKS.update({
     "C06": (True, "symbolic evaluation with the matching flag left symbolic (non-interference), provenance of row entries, "
-                  "identity testing of derived index expressions",
+                  "identity testing of derived index expressions; MT-TABLE: a matching table of any construction is evaluated "
+                  "(its derived expressions, not the code) for small diagrams under every perfect matching the library may have "
+                  "accepted, forward and reverse look-ups included",
             CLAUSE + "Decides MT-NONINT, MT-COST, MT-MINUS1, MT-DROP, MT-COVER, MT-PROV, MT-GRAPH (the matching is searched in the "
             "thresholded matrix itself, not its transpose or a relabelling) for both functions, whether the rows are "
             "appended one by one or built as a whole table (arange / where / column_stack / masks / stacked slices: the "
@@ -70,7 +72,8 @@ CHECKS.update({
             "the row costs equals the distance (solver optimality) and which optimal matching is returned.",
             SYMNOTE, "DESIGN.md §4 C06"),
     "C14": (True, "symbolic evaluation of the kernel double loop to a ΣΣ normal form; translation-weight and units typing; "
-                  "sign analysis of the radicand",
+                  "sign analysis of the radicand; HT-MULT (non-accumulating scatter) and the narrowing dataflow (no cast of the "
+                  "diagrams' coordinates to single precision: two inter-procedural fixpoints), both with positive examples",
             CLAUSE + "Decides HT-KER (incl. inputs with exact and near ties: conditions that select rows are exercised on both "
             "sides), HT-DIST, HT-SWAP, HT-UNITS, HT-REAL, HT-STATE, HT-DTYPE and proves HT-SHIFT (row-selecting conditions are typed too) (translation invariance for "
             "every input, exact arithmetic). Declines: exact zeros in floating point, triangle inequality, stability.",
@@ -79,14 +82,16 @@ CHECKS.update({
 
 CHECKS.update({
     "C15": (True, "symbolic evaluation with an opaque loop-variant direction; homogeneity-degree and symbolic "
-                  "translation-weight typing; normal-form comparison of the projected vectors; loop-summary rules",
+                  "translation-weight typing; normal-form comparison of the projected vectors; loop-summary rules; narrowing "
+                  "dataflow (what is single precision / what is reached from the diagrams) for SW-DTYPE",
             CLAUSE + "Proves SW-DEG (linear scaling) and SW-SHIFT (diagonal translation invariance incl. negative "
             "coordinates) for every input in exact arithmetic; decides SW-PROJ, SW-AUG, SW-AVG, SW-DTYPE (no float store into an array typed by the caller's "
             "data). Declines: <=2*W1, triangle "
             "inequality, diagonal-point insensitivity, quadrature error in M.",
             SYMNOTE + "float32 rounding of the direction vector ignored within 1e-6.", "DESIGN.md §4 C15"),
     "C16": (True, "symbolic evaluation to the entropy normal form under every flag configuration; degree/weight/"
-                  "row-symmetry facets; path-condition (guard) equivalence",
+                  "row-symmetry facets; path-condition (guard) equivalence; raise events whose path condition mentions the "
+                  "supplied value alone",
             CLAUSE + "Decides PE-FORM, PE-GUARD, PE-INF, PE-LIST and proves PE-INV (scale, translation and order invariance "
             "for every barcode, keep_inf=False). Declines: the numeric bounds 0<=E<=log n.",
             SYMNOTE, "DESIGN.md §4 C16"),
@@ -116,7 +121,9 @@ CHECKS.update({
 CHECKS.update({
     "C17": (True, "site rules over resolved calls on the helper-inlined view (coercion, same-mask restriction on both axes, "
                   "pair enumeration and symmetrisation with a write-set argument for 'never symmetrised', type ladder) "
-                  "+ call-graph reachability of random generators",
+                  "+ call-graph reachability of random generators; GH-RESULT: the entry point evaluated with the per-pair work "
+                  "stubbed for collections of 2, 3, 4 graphs and the two-argument form; GH-INT: the type chooser evaluated at the "
+                  "values around the type limits",
             CLAUSE + "Decides GH-COERCE, GH-LCC, GH-SYM (incl. a normal form of triangle index pairs — triu/tril_indices(_from), "
             "[::-1], .T — deciding position-by-position transposition), GH-INT, GH-DET. Declines: that the bounds bracket the distance (C05) "
             "and relabelling invariance of the bounds.",
@@ -136,7 +143,9 @@ CHECKS.update({
 
 CHECKS.update({
     "C10": (True, "symbolic evaluation of the segment integrator with a symbolic exponent; sign analysis with branch "
-                  "refinement at every power site; degree typing with a symbolic exponent; site rules for sup-norm and wiring",
+                  "refinement at every power site; degree typing with a symbolic exponent; NM-SHAPES / NM-SUP (bounded): the norms "
+                  "evaluated on landscapes of given shapes (1-3 depths, 1-4 critical pairs, level segments) against the definition, "
+                  "whatever the traversal (nested loops, flat chain with seams, piece objects); site rules for wiring",
             CLAUSE + "Decides NM-LAZY (must-pass-through: every read of the lazily computed data in p_norm / sup_norm lies behind a call that "
             "always runs compute_landscape(), through the MRO), NM-SIGN, NM-FORM (summand = integral of |line|^p in all three arms), NM-HOM (degree 1), NM-ARMS, "
             "NM-SUP, NM-WIRE. Declines: triangle inequality, stability vs bottleneck, nearly flat segments.",
@@ -171,7 +180,8 @@ CHECKS.update({
             SYMNOTE + "User weight/kernel callables are element-wise.", "DESIGN.md §4 C04"),
     "C11": (True, "loop-summary (additive fold) and row-dependence analysis of the symbolically evaluated image; call-style "
                   "and serial/parallel agreement decided by symbolic execution of transform with the per-diagram routine "
-                  "observed (arguments, order, wrapping); ownership analysis of the conversion sites",
+                  "observed (arguments, order, wrapping); ownership analysis of the conversion sites; AD-MULT: site rule on "
+                  "non-accumulating scatter through np.unique's inverse index (with a positive example checked on every run)",
             CLAUSE + "Decides AD-FOLD (additive, order-free, zeros for empty), AD-ZERO, AD-EMPTY, AD-PAR, AD-WRAP, AD-SKEW. "
             "Declines: non-negativity and pixel-total bounds (CDF monotonicity), bit-identical serial/parallel floats.",
             SYMNOTE + "joblib preserves order.", "DESIGN.md §4 C11"),
@@ -179,7 +189,8 @@ CHECKS.update({
 
 CHECKS.update({
     "C18": (True, "inter-procedural effect analysis (transform is read-only), call-wiring rule for fit_transform, and "
-                  "history-dependence analysis by symbolically executing two successive fits on different generic data",
+                  "history-dependence analysis by symbolically executing two successive fits on different generic data (no verdict on "
+                  "an inexact run); TF-FIXED: a user-fixed end-point is still the user's symbol after two fits",
             CLAUSE + "Decides TF-RO, TF-DATA (fit / transform / fit_transform never write through the data they are given), TF-FT, "
             "TF-ORDER, TF-HIST. The landscaper latches start/stop across fits: genuine defect "
             "kept as known findings K2-start/K2-stop (a latch on any other attribute is still reported). Declines: numerical "
@@ -191,7 +202,7 @@ CHECKS.update({
     "C09": (True, "inter-procedural effect/ownership analysis over all landscape operators and tools, CFG dominance of the "
                   "lazy-cache stores, symbolic execution of the unary operators, abstract interpretation of the slope merge over the "
                   "finite domain of breakpoint orderings (bounded list lengths), mismatch guards decided on the path "
-                  "condition of the statement returning the sum (operands with independent symbolic grids), site rules for "
+                  "condition of the statement returning the sum (operands with independent symbolic grids), AR-DTYPE (dtype-inheritance dataflow: a buffer typed by an operand's values must not receive interpolated floats), site rules for "
                   "padding/re-sampling on the helper-inlined view",
             CLAUSE + "Decides AR-EFFECT, AR-OWN, AR-LAZY, AR-GUARD, AR-UNARY, AR-PAD (evaluator-based: what union_vals / "
             "union_crit_pairs return for operands of different depth), AR-SNAP (decided on the constructor calls observed while snap_pl is followed on two landscapes with independent symbolic "
